@@ -39,3 +39,10 @@ check("C09",
   "For every generated (formula, missingness pattern over used and unused columns, na_action, index flavour) the real pipeline runs on the frame with NaN/None cells and on the frame from which exactly the rows missing a USED variable were removed ('used' computed from the formula text by the harness). drop: all three matrices equal the reference run as z3 terms and stay row-aligned; error: ValueError iff such a row exists; pass: all rows kept, complete rows as under drop, NaN in exactly the columns whose label mentions the missing numeric variable; other na_action values are refused.",
   "Trusted: z3; used_from_text(); stubs in evidence. Patterns of at most 2 (quick) / 3 (thorough) missing cells on a 6-row frame; 'pass' only for numeric cells and pointwise terms, as the statement restricts it.",
   "DESIGN.md section 4 C09")
+
+check("C10",
+  "relational symbolic execution of evaluate_new_data (rows with an unseen level vs the same rows without it) on z3-real cells; mode and mode-change sequences enumerated; Config on candidate strings",
+  "model_checking",
+  "For every generated (formula, placement of an unseen level in predictor / interaction factor / effect / grouping variables, mode, sequence of mode changes) the real evaluate_new_data runs on new rows with and without the unseen value; numeric cells are z3 reals. error mode must raise; otherwise columns of the variable are zero on exactly those rows, every other entry equals the reference run (z3), warning warns; group matrices get exactly one trailing block per term of a factor with unseen groups carrying the effect values of those rows, slices are contiguous and shifted, factors_with_new_levels is exact. Config is exercised on documented and near-miss key/value strings through both __setitem__ and setattr.",
+  "Trusted: z3; stubs in evidence; the reference for 'what they would be without them' is the evaluation with the training value in place of the unseen one. One unseen level per variable; 4-row new frames. Config candidates are a finite list (not arbitrary strings): CrossHair 0.0.110 could not exhaust symbolic str keys within 40 s per condition and is not used.",
+  "DESIGN.md section 4 C10")
